@@ -695,6 +695,67 @@ func c08DecoderFilesIn(c *Ctx) {
 		c.Fail(key, rule, "DecoderFor is not called in the loop over files", c.at(df))
 		return
 	}
+	// what is sniffed is the opened input itself: a reader put in between (a buffering, terminating or
+	// filtering wrapper) decides what the decoders see — e.g. a final partial JSON line made complete
+	{
+		v := df.Call.Args[0]
+		for k := 0; k < 8; k++ {
+			switch x := v.(type) {
+			case *ssa.ChangeInterface:
+				v = x.X
+				continue
+			case *ssa.MakeInterface:
+				v = x.X
+				continue
+			case *ssa.Parameter:
+				if a := inlineArg(x); a != nil {
+					v = a
+					continue
+				}
+			}
+			break
+		}
+		v = helperResult(v)
+		okSrc := false
+		if ex, isEx := v.(*ssa.Extract); isEx && ex.Index == 0 {
+			if oc, isCall := ex.Tuple.(*ssa.Call); isCall && oc.Call.StaticCallee() != nil && oc.Call.StaticCallee() == c.P.Func("", "file") {
+				okSrc = true
+			}
+		}
+		if !okSrc {
+			c.Fail(key, rule, "DecoderFor is not given the opened input itself but "+describeVal(df.Call.Args[0])+": a reader in between changes what the decoders see (truncated last record, altered bytes)", c.at(df))
+			return
+		}
+	}
+	// no input is skipped: from the top of an iteration the next iteration is reached only through DecoderFor
+	{
+		stopAt := func(i ssa.Instruction) bool {
+			if i == ssa.Instruction(df) {
+				return true
+			}
+			if call, isCall := i.(*ssa.Call); isCall {
+				if h := call.Call.StaticCallee(); h != nil && curProgram != nil && singleSite(curProgram, h) == call {
+					for _, g := range inlinedRegion(curProgram, h) {
+						if g == df.Parent() {
+							return true
+						}
+					}
+				}
+			}
+			return false
+		}
+		for _, succ := range header.Succs {
+			if loopHeaderOf(succ) != header && succ != header {
+				continue // the loop's exit
+			}
+			for i := range exploreBlock(succ, stopAt) {
+				if i.Block() == header && !stopAt(i) {
+					c.Fail(key, rule, "an iteration can go on to the next input without detecting this one: the input is silently left out of the union", c.at(df))
+					return
+				}
+			}
+		}
+	}
 	// nil test
 	var nilIf *ssa.If
 	nilIsTrue := true
@@ -732,16 +793,68 @@ func c08DecoderFilesIn(c *Ctx) {
 		return
 	}
 	// ok edge: append(decs, df) exactly once before the next iteration
-	var appendDec *ssa.Call
+	var appendDec, notOnly *ssa.Call
 	nApp := 0
 	eachInstr(fn, func(i ssa.Instruction) {
 		if call, ok := i.(*ssa.Call); ok && callName(&call.Call) == "builtin:append" {
 			if el, ok := sliceElems(call.Call.Args[1]); ok && len(el) == 1 && (el[0] == ssa.Value(df) || flowsFrom(el[0], func(v ssa.Value) bool { return v == ssa.Value(df) })) {
 				appendDec = call
 				nApp++
+				// and nothing but the auto-detected decoder: a decoder picked another way (by file name) on
+				// some path is not the one the content calls for
+				var only func(v ssa.Value, d int) bool
+				only = func(v ssa.Value, d int) bool {
+					if d > 8 {
+						return false
+					}
+					v = helperResult(v)
+					if v == ssa.Value(df) || isNilConst(v) {
+						return true
+					}
+					if phi, isPhi := v.(*ssa.Phi); isPhi {
+						for _, e := range phi.Edges {
+							if !only(e, d+1) {
+								return false
+							}
+						}
+						return true
+					}
+					// result of a single-site helper: every return of it
+					var hc *ssa.Call
+					idx := 0
+					switch x := v.(type) {
+					case *ssa.Extract:
+						hc, _ = x.Tuple.(*ssa.Call)
+						idx = x.Index
+					case *ssa.Call:
+						hc = x
+					}
+					if hc != nil && curProgram != nil {
+						if h := hc.Call.StaticCallee(); h != nil && len(h.Blocks) > 0 && singleSite(curProgram, h) == hc {
+							okAll, n := true, 0
+							eachInstr(h, func(i ssa.Instruction) {
+								if r, isR := i.(*ssa.Return); isR && idx < len(r.Results) {
+									n++
+									if !only(r.Results[idx], d+1) {
+										okAll = false
+									}
+								}
+							})
+							return okAll && n > 0
+						}
+					}
+					return false
+				}
+				if !only(el[0], 0) {
+					notOnly = call
+				}
 			}
 		}
 	})
+	if notOnly != nil {
+		c.Fail(key, rule, "the decoder kept for a file is not on every path the one DecoderFor detected from its content", c.at(notOnly))
+		return
+	}
 	if nApp != 1 || setNil[ssa.Instruction(appendDec)] || !exploreBlock(okSucc, nil)[ssa.Instruction(appendDec)] {
 		c.Fail(key, rule, "the detected decoder is not appended exactly once on the success edge", c.at(df))
 		return
@@ -977,6 +1090,7 @@ func runC09(c *Ctx) {
 	gobDirect(c)
 	c09JSONDecoder(c)
 	c08DecoderFor(c) // the commands reach every decoder through DecoderFor: what it replays is what gets decoded
+	c08DecoderFiles(c) // and DecoderFor is given the opened input itself: no reader in between completes a cut record
 	decodeLoop(c, "C09", c.P.Func("", "encode"), "(lib.Encoder).Encode")
 	decodeLoop(c, "C09", c.P.Func("", "report"), "invoke:lib.Report.Add")
 	decodeLoop(c, "C09", c.P.Func("", "plotRun"), "(*lib/plot.Plot).Add")
